@@ -53,6 +53,10 @@ class FakeConn:
 
     def script_recv(self, budget, chunksz, tail):
         self.budget, self.chunksz, self.tail = budget, max(1, chunksz), tail
+        if isinstance(tail, (tuple, list)) and tail[1] == "ECONNRESET":
+            # the reset has already arrived in the kernel while buffered data can still be read: from now on the socket
+            # is not connected any more (getpeername() fails), as on a real socket
+            self.peer_gone = True
 
     # -- socket API used by hio
     def setblocking(self, flag):
@@ -67,6 +71,8 @@ class FakeConn:
     def getpeername(self):
         if self.closed:
             raise OSError(errno.EBADF, "Bad file descriptor")
+        if getattr(self, "peer_gone", False):      # the peer reset the connection: the socket is no longer connected
+            raise OSError(errno.ENOTCONN, "Transport endpoint is not connected")
         return self.ca
 
     def getsockname(self):
